@@ -647,9 +647,7 @@ def reread_stream(chk, fresh_dir, clean, wd):
         return sorted(out)
     for seq in seqs:
         here = fresh_dir()
-        c14_cfg.set_environ()
-        o = ServerOptions()
-        o.environ_expansions = dict((k, v) for k, v in o.environ_expansions.items() if k in c14_cfg.ENV_KEYS)
+        o = c14_cfg.new_options()
         history = []
         for step, mk in enumerate(seq):
             cfg = mk(here)
